@@ -670,6 +670,15 @@ impl TransportManager {
             }
         };
 
+        // refuse the address before it is stored or the peer state is touched: a transport that
+        // is compiled in but not enabled must neither leave the peer in `Dialing` state nor end
+        // up in the address store, from where a later `dial()` would try to open it
+        if self.transports.get_mut(&supported_transport).is_none() {
+            return Err(Error::TransportNotSupported(
+                address_record.address().clone(),
+            ));
+        }
+
         // when constructing `AddressRecord`, `PeerId` was verified to be part of the address
         let remote_peer_id =
             PeerId::try_from_multiaddr(address_record.address()).expect("`PeerId` to exist");
